@@ -1,7 +1,7 @@
 """C17 - an interrupted attribute write leaves the old or the new data, never a ruin"""
 from ..rules import exc, data
 
-DECIDES = ('the crash clause by shape: the only effect on the sidecar path is one rename of a fully written temporary sibling that post-dominates the write; the sidecar is never opened for writing, truncated, moved or removed (R-ATOMIC), so every crash point leaves old or new; a stale temporary does not block the next write (not opened exclusively); tolerant read: open / json.load sit in a try whose handlers cover OSError and decoding errors without re-raising, nothing else escapes get_data (R-TOLERANT, R-EXC).')
+DECIDES = ('the crash clause by shape: the only effect on the sidecar path is one rename of a fully written temporary sibling that post-dominates the write; the sidecar is never opened for writing, truncated, moved or removed (R-ATOMIC), so every crash point leaves old or new; a stale temporary does not block the next write (not opened exclusively, and no raise / return is decided by whether it exists); update() reaches _write_data before every non-failure return (R-OVERLAY); tolerant read: open / json.load sit in a try whose handlers cover OSError and decoding errors without re-raising, nothing else escapes get_data (R-TOLERANT, R-EXC).')
 DOES_NOT_DECIDE = 'nothing of the statement; trusts the atomicity of rename(2) within one directory'
 
 
